@@ -207,17 +207,20 @@ def insertSorted (x : Nat) : List Nat → List Nat
   | [] => [x]
   | y :: ys => if x ≤ y then x :: y :: ys else y :: insertSorted x ys
 
-/-- print the events of one operation; `D` lines sorted unless a panic was injected in it -/
+/-- print the events of one operation; unless a panic was injected in it, the ids of the `D`
+    lines are redistributed in ascending order over the positions the `D` lines occupy -/
 def printEvents (evs : List Ev) (sortDrops : Bool) : IO Unit := do
-  if sortDrops then
-    let drops := evs.filterMap (fun e => match e with | .drop i => some i | _ => none)
-    let others := evs.filter (fun e => match e with | .drop _ => false | _ => true)
-    for e in others do
-      match showEv e with | some s => IO.println s | none => pure ()
-    for i in drops.foldr insertSorted [] do
-      IO.println s!"D {i}"
-  else
-    for e in evs do
+  let sorted := (evs.filterMap (fun e => match e with | .drop i => some i | _ => none)).foldr insertSorted []
+  let mut rest := sorted
+  for e in evs do
+    match e with
+    | .drop i =>
+      if sortDrops then
+        match rest with
+        | j :: tl => IO.println s!"D {j}"; rest := tl
+        | [] => IO.println s!"D {i}"
+      else IO.println s!"D {i}"
+    | _ =>
       match showEv e with | some s => IO.println s | none => pure ()
 
 def printState (w : World) : IO Unit := do
@@ -246,12 +249,33 @@ def classOf : String → Option Cfg
 def anyInRange (f : Nat → Bool) (lo hi : Nat) : Bool :=
   (List.range (hi - lo)).any (fun k => f (lo + k))
 
+/-- upper bound of the element ids an operation may create (same formula as the harness, which
+    refuses operations that could overflow the id space of the element class: PROTOCOL.md) -/
+def idBound (w : World) : Op → Nat
+  | .from_slice _ vs | .extend_from_slice _ vs => 2 * vs.length
+  | .collect _ it | .extend _ it | .splice _ _ _ it _ => (it.filter Option.isSome).length
+  | .macro_list _ vs => vs.length
+  | .macro_repeat _ _ n => 2 * n
+  | .push .. | .insert .. | .remove_item .. => 1
+  | .resize r n _ => 1 + (n - (match w.get r with | some (.vec v) => (if v.isDefault then 0 else v.len) | _ => 0))
+  | .resize_with r n _ => n - (match w.get r with | some (.vec v) => (if v.isDefault then 0 else v.len) | _ => 0)
+  | .extend_from_within r _ _ | .clone r _ => (match w.get r with | some (.vec v) => (if v.isDefault then 0 else v.len) | _ => 0)
+  | .clone_iter it _ => (match w.get it with | some (.intoIter v _) => (if v.isDefault then 0 else v.len) | _ => 0)
+  | _ => 0
+
+def roomFor (cs : Case) (op : Op) : Bool :=
+  let n := idBound cs.w op
+  let limit := if cs.X.c.elemSize == 1 then 255 else 65536
+  n ≥ 16777216 || cs.w.sys.nextId + n ≤ limit
+
 def runOp (cs : Case) (line : String) : IO Case := do
   if cs.dead then return cs
   IO.println s!"> {line}"
   match parseOp (words line) with
   | none => IO.println "= bad-op"; printState cs.w; return cs
   | some op =>
+    if !roomFor cs op then
+      IO.println "= bad-op"; printState cs.w; return cs
     let n0 := cs.w.sys.tr.length
     let cb0 := cs.w.sys.cbIdx
     let (w', out) := step cs.X cs.w op
